@@ -17,6 +17,8 @@ def na(pid, reason):
 
 exec(open(os.path.join(ROOT, 'claims.py')).read())
 
+for _k in CLAIMED:
+    NOT_APPLICABLE.pop(_k, None)
 props = [json.loads(l)['id'] for l in open(os.path.join(ROOT, 'properties.jsonl'))]
 checks = []
 for pid in props:
